@@ -49,9 +49,12 @@ const (
 type sym struct {
 	id      string
 	desc    string
-	nilness int8   // 0 unknown, 1 nil, 2 non-nil (intrinsic)
-	method  string // for the result of an opaque method call: its name …
-	recv    string // … and the id of its receiver
+	nilness int8          // 0 unknown, 1 nil, 2 non-nil (intrinsic)
+	method  string        // for the result of an opaque method call: its name …
+	recv    string        // … and the id of its receiver
+	after   bool          // … and whether the call came after a store into that receiver on the same path
+	fn      *ssa.Function // a function value (function literal handed on as an argument) …
+	binds   []*sym        // … with its captured variables
 }
 
 var symNil = &sym{id: "nil", desc: "nil", nilness: 1}
@@ -361,7 +364,17 @@ func (a *analyser) eval(fr *frame, v ssa.Value, prev *ssa.BasicBlock, depth int)
 				}
 			}
 		}
-	case *ssa.Alloc, *ssa.MakeClosure, *ssa.MakeMap, *ssa.MakeSlice, *ssa.MakeChan:
+	case *ssa.Function:
+		return &sym{id: "func:" + x.String(), desc: "func", nilness: 2, fn: x}
+	case *ssa.MakeClosure:
+		if f, ok := x.Fn.(*ssa.Function); ok {
+			s := &sym{id: fr.sig + "/" + v.Name(), desc: "func", nilness: 2, fn: f}
+			for _, b := range x.Bindings {
+				s.binds = append(s.binds, a.eval(fr, b, prev, depth+1))
+			}
+			return s
+		}
+	case *ssa.Alloc, *ssa.MakeMap, *ssa.MakeSlice, *ssa.MakeChan:
 		return &sym{id: fr.sig + "/" + v.Name(), desc: "new", nilness: 2}
 	}
 	return &sym{id: fr.sig + "/" + v.Name(), desc: "?"}
@@ -540,7 +553,8 @@ func (a *analyser) call(fr *frame, b *ssa.BasicBlock, i int, ins ssa.CallInstruc
 		a.visited[a.prog.Fset.Position(ins.Pos()).String()] = true
 		a.res.addrs[na[0].desc] = true
 		cmd := na[1]
-		stored := cmd.method == cmdBuilder && st["stored:"+cmd.recv] == 1
+		// built by the cmd builder, invoked on an object this path stored into, AFTER that store
+		stored := cmd.method == cmdBuilder && st["stored:"+cmd.recv] == 1 && cmd.after
 		// is the address that of the feature whose function data the path stored into? (the object the address is
 		// taken from — field selections stripped — is a prefix object of a stored function-data object)
 		own := "foreign"
@@ -555,8 +569,8 @@ func (a *analyser) call(fr *frame, b *ssa.BasicBlock, i int, ins ssa.CallInstruc
 				}
 			}
 			j := strings.LastIndex(base, ".")
-			if j < 0 {
-				break
+			if j < 0 || strings.Contains(base[j:], "()") {
+				break // only field selections are stripped: an object reached through a method call is another object
 			}
 			base = base[:j]
 		}
@@ -570,7 +584,19 @@ func (a *analyser) call(fr *frame, b *ssa.BasicBlock, i int, ins ssa.CallInstruc
 		return
 	}
 	var inl []*ssa.Function
+	var fnval *sym
+	if !c.IsInvoke() && c.StaticCallee() == nil {
+		// a call of a function VALUE: when the value is a function literal of the module handed down the path, it is
+		// inlined like a helper (whatever it reaches: it may build the cmd)
+		if v := a.eval(fr, c.Value, prev, 0); v.fn != nil && isModule(v.fn) && len(v.fn.Blocks) > 0 && !fr.stack[v.fn] && fr.depth < 14 {
+			fnval = v
+			inl = append(inl, v.fn)
+		}
+	}
 	for _, f := range a.callees(c) {
+		if fnval != nil {
+			break
+		}
 		g := f
 		if o := g.Origin(); o != nil {
 			g = o
@@ -598,6 +624,7 @@ func (a *analyser) call(fr *frame, b *ssa.BasicBlock, i int, ins ssa.CallInstruc
 				s.id = fmt.Sprintf("%s.%s()#%d", recv.id, name, k)
 				s.desc = name + "(" + recv.desc + ")"
 				s.recv = recv.id
+				s.after = st["stored:"+recv.id] == 1
 			}
 			return s
 		}
@@ -633,6 +660,12 @@ func (a *analyser) call(fr *frame, b *ssa.BasicBlock, i int, ins ssa.CallInstruc
 			for k, fv := range f.FreeVars {
 				if k < len(mc.Bindings) {
 					nf.vals[fv] = a.eval(fr, mc.Bindings[k], prev, 0)
+				}
+			}
+		} else if fnval != nil {
+			for k, fv := range f.FreeVars {
+				if k < len(fnval.binds) {
+					nf.vals[fv] = fnval.binds[k]
 				}
 			}
 		}
